@@ -846,6 +846,14 @@ fn run_reader(plan: &Plan, image: &[u8], verbose: bool) -> Report {
                         "Error::source() does not expose the reader's io::Error".into(),
                         format!("injected {}", kind.name()),
                     ))
+                } else if !kind.is_raw() && !crate::simreader::carries_sim_error(e) {
+                    // "carrying that error": an error of the same kind made up by the loader is
+                    // not the error the reader reported (its payload, message and source are gone)
+                    Some(mk(
+                        "io-error-not-returned",
+                        "IoError carries a fresh error of the same kind, not the error object the reader reported".into(),
+                        format!("injected {} got {:?}", kind.name(), e),
+                    ))
                 } else {
                     if e.get_ref().map(|p| p.is::<crate::simreader::SimIoError>()).unwrap_or(false) {
                         facts.probes.push("error-object-survived".into());
